@@ -39,9 +39,7 @@ func (handler *InvHandler) Handle(ctx context.Context, m wire.Message) ([]wire.M
 	}
 
 	// We don't care about tx announcments until we are in sync
-	if !handler.state.IsReady() {
-		return nil, nil
-	}
+	ready := handler.state.IsReady()
 
 	response := []wire.Message{}
 	invRequest := wire.NewMsgGetData()
@@ -49,6 +47,10 @@ func (handler *InvHandler) Handle(ctx context.Context, m wire.Message) ([]wire.M
 	for _, item := range msg.InvList {
 		switch item.Type {
 		case wire.InvTypeTx:
+			if !ready {
+				continue
+			}
+
 			alreadyHave, shouldRequest := handler.memPool.AddRequest(ctx, item.Hash, true)
 			if alreadyHave {
 				// The trusted node vouches for a tx that came from another peer. The mempool is
@@ -79,7 +81,8 @@ func (handler *InvHandler) Handle(ctx context.Context, m wire.Message) ([]wire.M
 
 		// New blocks are normally announced with headers since we sent a "sendheaders" message,
 		//   but a node falls back to block inventories when its headers would not connect or for
-		//   many blocks at once. Ask for headers again so that tip is not missed.
+		//   many blocks at once, and that message is only sent once in sync. Ask for headers again
+		//   so that tip is not missed.
 		case wire.InvTypeBlock:
 			if !handler.state.BlockIsRequested(&item.Hash) &&
 				!handler.state.BlockIsToBeRequested(&item.Hash) {
